@@ -20,6 +20,12 @@ Record case := mkCase {
   o_errs : list bool;        (* impl: updateSensor returned an error *)
 }.
 
+(* monitor-loop cases (drv_sensor_mon.go): the real sensorMonitor.Run polls a hook-served file;
+   the per-poll reads and averages are recorded exactly, but whether Run saw an error is not
+   observable (it only logs), so the error flags are taken from the model: averages only. *)
+Definition mkMonCase (k : kind) (n : Z) (i : init_mode) (rs : list reading) (ok : bool) (oi : f64) (oa : list f64) : case :=
+  mkCase k n i rs ok oi oa (errs k rs).
+
 (* ---- model side ---- *)
 Definition gv := get_value.
 
